@@ -6,6 +6,8 @@ mod c04;
 mod c06;
 mod c07;
 mod c11;
+mod c12;
+mod c16;
 mod c18;
 mod c19;
 mod te;
@@ -40,6 +42,8 @@ fn main() {
         "C06" => c06::run(&tier, replay.as_deref()),
         "C11" => c11::run(&tier, replay.as_deref()),
         "C07" => c07::run(&tier, replay.as_deref()),
+        "C12" => c12::run(&tier, replay.as_deref()),
+        "C16" => c16::run(&tier, replay.as_deref()),
         "C18" => c18::run(&tier, replay.as_deref()),
         "C19" => c19::run(&tier, replay.as_deref()),
         _ => {
